@@ -616,7 +616,25 @@ impl private::StoreCallbacks<AnnotationDataSet> for AnnotationStore {
                 self.remove_annotation_if_exists(a_handle)?;
             }
         }
+        //remove annotations that point at keys or data of this set
+        if let Some(map) = self.key_annotation_metamap.data.get(handle.as_usize()) {
+            let mut annotations: BTreeSet<AnnotationHandle> = BTreeSet::new();
+            annotations.extend(map.data.iter().flatten());
+            for a_handle in annotations {
+                self.remove_annotation_if_exists(a_handle)?;
+            }
+        }
+        if let Some(map) = self.data_annotation_metamap.data.get(handle.as_usize()) {
+            let mut annotations: BTreeSet<AnnotationHandle> = BTreeSet::new();
+            annotations.extend(map.data.iter().flatten());
+            for a_handle in annotations {
+                self.remove_annotation_if_exists(a_handle)?;
+            }
+        }
         self.dataset_annotation_metamap.remove_all(handle);
+        self.key_annotation_metamap.remove_all(handle);
+        self.data_annotation_metamap.remove_all(handle);
+        self.dataset_data_annotation_map.remove_all(handle);
         Ok(())
     }
 }
